@@ -36,9 +36,13 @@ type params struct {
 	Clock  int    `json:"clock,omitempty"` // verify: seconds added to the clock
 	Delay  int    `json:"delay,omitempty"` // token: virtual seconds the server is delayed before reading step 1
 	MaxAge int    `json:"max_age,omitempty"`
+	SSL    bool   `json:"ssl,omitempty"` // token: both ends also list SSL after TOKEN, so a failed token exchange can fall back to it
 }
 
 const maxAge = 600
+
+// sslFallback, when set, makes handshake() list SSL after TOKEN on both ends (set by runToken for the ssl cases).
+var sslFallback *hs.SSLWorld
 
 type outcome struct {
 	cn, sn     *security.SecurityNegotiation
@@ -76,6 +80,15 @@ func handshake(s *kernel.Sim, tw *hs.TokenWorld, token string, serverKeys hs.Mem
 	tw.ServerToken(scfg)
 	scfg.Credentials = serverKeys
 	scfg.TokenMaxAge = maxAge
+	if sslFallback != nil {
+		ccfg.AuthMethods = []security.AuthMethod{security.AuthToken, security.AuthSSL}
+		scfg.AuthMethods = []security.AuthMethod{security.AuthToken, security.AuthSSL}
+		sslFallback.Server(scfg)
+		sslFallback.Client(ccfg)
+		for k, v := range serverKeys { // the SSL world brings its own credential reader: the server's token keys go along
+			sslFallback.Creds[k] = v
+		}
+	}
 	o := &outcome{}
 	if delay > 0 {
 		pr.SE.OnOp = func(op simnet.Op) simnet.Action {
@@ -181,7 +194,43 @@ func runToken(s *kernel.Sim, p params) {
 	case "other-subject":
 		tok = refcodec.MakeToken(tw.RawKey, tw.KeyID, "bob@elsewhere", tw.Issuer, now-10, now+3600, "cd")
 	}
+	if p.SSL {
+		sw, err := hs.NewSSLWorld()
+		if err != nil {
+			s.Violate("harness", "ssl-world", err.Error())
+			return
+		}
+		defer sw.Close()
+		sslFallback = sw
+		defer func() { sslFallback = nil }()
+	}
 	o := handshake(s, tw, tok, tw.Creds, delay, nil, t.Choose("plain", 2) == 1)
+	if p.SSL {
+		// the token exchange may fail and SSL (server certificate only: no client identity) take over.
+		// Whatever succeeded, the server may name the client after the token only if the token was proven.
+		at := o.serverAt.Unix()
+		vd, why := verdict(tok, keys, at)
+		desc := fmt.Sprintf("token variant %s with SSL listed after TOKEN: reference says %s; client err=%v, server err=%v", p.Var, why, o.cerr, o.serr)
+		if o.serr == nil && o.sn != nil {
+			desc += fmt.Sprintf("; server reports method %q user %q", o.sn.NegotiatedAuth, o.sn.User)
+		}
+		s.Note("%s", desc)
+		if o.serr == nil && o.sn != nil && vd < 0 {
+			if o.sn.NegotiatedAuth == security.AuthToken {
+				s.Violate("server-accepted-invalid-token", p.Var+"/ssl-listed", desc)
+				return
+			}
+			if o.sn.User != "" && o.sn.User == subjectUser(tok) {
+				s.Violate("identity-from-unproven-token", p.Var+"/ssl-fallback", desc+": the token exchange failed, yet the session carries the identity the token named")
+				return
+			}
+			s.Probe("fell-back-to-ssl-without-token-identity")
+		}
+		if o.serr == nil && vd > 0 {
+			s.Probe("ssl-listed-token-succeeded")
+		}
+		return
+	}
 	judge(s, p, o, tok, keys, fmt.Sprintf("%s/delay=%d", p.Var, p.Delay))
 }
 
@@ -545,6 +594,12 @@ func gen(g *scen.Gen) {
 	}
 	for _, v := range []string{"valid", "other-key", "unknown-kid", "kid-outside-key-dir", "kid-outside-key-dir-nested", "no-kid-pool", "other-subject", "too-old-already", "fresh-enough", "expires-later", "no-exp-too-old", "no-exp-fresh"} {
 		if !emit(params{Kind: "token", Var: v}) {
+			return
+		}
+	}
+	// the same with SSL listed after TOKEN: a failed token exchange may fall back to a method that proves no client identity
+	for _, v := range []string{"valid", "other-key", "unknown-kid", "too-old-already", "other-subject"} {
+		if !emit(params{Kind: "token", Var: v, SSL: true}) {
 			return
 		}
 	}
